@@ -403,6 +403,17 @@ impl FixedPoint {
     }
 }
 
+impl FixedPoint {
+    /// Converts the integer. Returns an error if the value is too large to represent.
+    pub fn try_from_integer(value: Integer) -> Result<FixedPoint, &'static str> {
+        Ok(FixedPoint {
+            span: value.span,
+            whole: u64::try_from(value.value).map_err(|e| "value out of range")?,
+            femptos: 0,
+        })
+    }
+}
+
 impl From<Integer> for FixedPoint {
     fn from(value: Integer) -> Self {
         FixedPoint {
